@@ -2,7 +2,7 @@ SPECIFICATION Spec
 CONSTANTS
   ReqBodyLens = {0, 1, 4}
   RespBodyLens = {0, 2}
-  ReqHdrLens = {1, 3}
+  ReqHdrLens = {3}
   RespHdrLens = {2}
   ReqTrlLens = {0, 2}
   RespTrlLens = {0, 1}
